@@ -132,32 +132,6 @@ Qed.
 
 (* ---------------- WriteVBR ---------------- *)
 
-Lemma enc_vbr_fuel_indep : forall f1 f2 w v, (2 <= w)%nat ->
-  0 <= v < 2 ^ Z.of_nat f1 -> v < 2 ^ Z.of_nat f2 -> enc_vbr_fuel f1 w v = enc_vbr_fuel f2 w v.
-Proof.
-  induction f1; intros f2 w v Hw H1 H2.
-  - change (Z.of_nat 0) with 0 in H1. rewrite Z.pow_0_r in H1. assert (v = 0) by lia. subst.
-    destruct f2; cbn [enc_vbr_fuel]; [reflexivity|].
-    destruct (Z.ltb_spec 0 (2 ^ Z.of_nat (w - 1))); [reflexivity|].
-    pose proof (pow2_pos (Z.of_nat (w - 1)) ltac:(lia)). lia.
-  - destruct f2.
-    + change (Z.of_nat 0) with 0 in H2. rewrite Z.pow_0_r in H2. assert (v = 0) by lia. subst.
-      cbn [enc_vbr_fuel].
-      destruct (Z.ltb_spec 0 (2 ^ Z.of_nat (w - 1))); [reflexivity|].
-      pose proof (pow2_pos (Z.of_nat (w - 1)) ltac:(lia)). lia.
-    + cbn [enc_vbr_fuel].
-      set (m := 2 ^ Z.of_nat (w - 1)).
-      assert (Hm : 2 <= m).
-      { unfold m. replace (w - 1)%nat with (S (w - 2))%nat by lia.
-        rewrite Nat2Z.inj_succ, Z.pow_succ_r by lia.
-        pose proof (pow2_pos (Z.of_nat (w - 2)) ltac:(lia)). lia. }
-      destruct (Z.ltb_spec v m); [reflexivity|]. f_equal.
-      rewrite Nat2Z.inj_succ, Z.pow_succ_r in * by lia.
-      apply IHf1; try assumption.
-      * split; [apply Z.div_pos; lia|]. apply Z.div_lt_upper_bound; try lia. nia.
-      * apply Z.div_lt_upper_bound; try lia. nia.
-Qed.
-
 Lemma vbr_consts : forall w, 2 <= w <= 32 ->
   vbr_sh w = w - 1 /\ vbr_tag w = 2 ^ (w - 1) /\ vbr_mask w = 2 ^ (w - 1) - 1.
 Proof.
